@@ -255,6 +255,11 @@ int vs_cond_wait(pthread_cond_t *c, pthread_mutex_t *m) {
   Thread *me = S->th[(size_t)S->cur];
   if (!S->cond_alive.count(c)) violation("pthread_cond_wait on a destroyed condition variable");
   if (!S->mutex_owner.count(m) || S->mutex_owner[m] != me->id) violation("pthread_cond_wait without holding the mutex");
+  // A thread can be preempted after it has evaluated its predicate and before pthread_cond_wait has queued it.  Threads that
+  // need `m` cannot get in there, but a thread that signals WITHOUT holding `m` can - and its signal is then lost.  So the
+  // call is a scheduling point of its own, taken with the mutex still held, before the atomic "release and wait".
+  me->st = RUNNABLE;
+  schedule();
   S->mutex_owner[m] = -1;
   me->st = WAITING_COND;
   me->obj = c;
